@@ -106,6 +106,11 @@ class Probe:
             "GCWritePort": [vp, u64, vp, P(sz)],
             "GCReadPortStacked": [vp, P(StackEntry), P(sz)],
             "GCWritePortStacked": [vp, P(StackEntry), P(sz)],
+            "IFGetNumDevices": [vp, P(u32)], "IFUpdateDeviceList": [vp, P(C.c_ubyte), u64],
+            "IFGetParentTL": [vp, P(vp)], "IFGetDeviceID": [vp, u32, vp, P(sz)],
+            "IFGetDeviceInfo": [vp, C.c_char_p, i32, P(i32), vp, P(sz)],
+            "IFOpenDevice": [vp, C.c_char_p, i32, P(vp)],
+            "CGCGetInfo": [i32, i32, vp, P(sz)],
         }
         for name, args in sig.items():
             f = getattr(lib, name)
@@ -113,6 +118,8 @@ class Probe:
             f.restype = i32
         # handle slots: None = NULL, ("sys"|"if", ptr) live, "freed"
         self.slots = {}
+        self.parent = {}     # interface handle pointer -> system handle pointer it was opened from
+        self.null = None     # name of the pointer parameter passed as NULL in the current call
         # library initialised?  (tracked from the return codes of GCInitLib / GCCloseLib; a freed
         # handle variable is passed on only while the library is NOT initialised, where the entry
         # points return before looking at any argument)
@@ -127,8 +134,9 @@ class Probe:
         if v is None:
             return False, C.c_void_p(None)
         if v == "freed":
-            if not self.lib_init:
-                # never dereferenced: the init assertion fails first.  Pass a poison pointer.
+            if not self.lib_init or self.null:
+                # never dereferenced: the init assertion / the NULL-parameter check fails first.
+                # Pass a poison pointer.
                 return False, C.c_void_p(0x10)
             return True, None
         return False, C.c_void_p(v[1])
@@ -144,15 +152,19 @@ class Probe:
             return b"caf\xc3\xa9"
         raise ValueError(kind)
 
+    def P(self, name, ptr):
+        """the pointer, or NULL when this call is made with that parameter NULL (`np:<name>`)"""
+        return None if self.null == name else ptr
+
     def info_call(self, fn, pre_args, buftok, with_type=True):
         buf, size_in = parse_buf(buftok)
         size = C.c_size_t(size_in)
         ty = C.c_int32(-77)
         ptr = buf.ptr if buf else C.c_void_p(None)
         if with_type:
-            code = fn(*pre_args, C.byref(ty), ptr, C.byref(size))
+            code = fn(*pre_args, self.P("type", C.byref(ty)), ptr, self.P("size", C.byref(size)))
         else:
-            code = fn(*pre_args, ptr, C.byref(size))
+            code = fn(*pre_args, ptr, self.P("size", C.byref(size)))
         out = "%d" % code
         if with_type:
             out += " t=%s" % ("-" if ty.value == -77 else ty.value)
@@ -161,9 +173,18 @@ class Probe:
             out += " GUARD-BROKEN"
         return out
 
+    def scalar_call(self, fn, pre_args, ctype, sentinel, post_args=()):
+        v = ctype(sentinel)
+        code = fn(*pre_args, self.P("out", C.byref(v)), *post_args)
+        return "%d %s" % (code, "-" if v.value == sentinel else v.value)
+
     # ---- one op --------------------------------------------------------------
     def run(self, op):
         t = op.split()
+        self.null = None
+        if t[0].startswith("np:"):
+            self.null = t[0][3:]
+            t = t[1:]
         k = t[0]
         lib = self.lib
         if k == "init":
@@ -176,11 +197,14 @@ class Probe:
             if code == 0:
                 self.lib_init = False
             return "%d" % code
+        if k == "gcinfo":
+            return "%d" % lib.CGCGetInfo(0, 0, None, None)
         if k == "lasterr":
             buf, size_in = parse_buf(t[1])
             size = C.c_size_t(size_in)
             ec = C.c_int32(-77)
-            code = lib.GCGetLastError(C.byref(ec), buf.ptr if buf else C.c_void_p(None), C.byref(size))
+            code = lib.GCGetLastError(self.P("code", C.byref(ec)), buf.ptr if buf else C.c_void_p(None),
+                                      self.P("size", C.byref(size)))
             out = "%d e=%s n=%d b=%s" % (code, "-" if ec.value == -77 else ec.value, size.value,
                                         "null" if buf is None else show_bytes(buf.contents()))
             if buf is not None and not buf.guards_ok():
@@ -189,7 +213,7 @@ class Probe:
         if k == "tlopen":
             dst = int(t[1])
             h = C.c_void_p(None)
-            code = lib.TLOpen(C.byref(h))
+            code = lib.TLOpen(self.P("out", C.byref(h)))
             out = "%d" % code
             if code == 0:
                 if not h.value:
@@ -209,29 +233,50 @@ class Probe:
                 self.slots[slot] = "freed"
             return "%d" % code
         if k == "tlupd":
-            ch = C.c_ubyte(0xEE)
-            code = lib.TLUpdateInterfaceList(h, C.byref(ch), 0)
-            return "%d %s" % (code, "-" if ch.value == 0xEE else ch.value)
-        if k == "tlnum" or k == "numurls":
-            n = C.c_uint32(0xEEEEEEEE)
-            code = (lib.TLGetNumInterfaces if k == "tlnum" else lib.GCGetNumPortURLs)(h, C.byref(n))
-            return "%d %s" % (code, "-" if n.value == 0xEEEEEEEE else n.value)
+            return self.scalar_call(lib.TLUpdateInterfaceList, (h,), C.c_ubyte, 0xEE, (0,))
+        if k == "ifupd":
+            return self.scalar_call(lib.IFUpdateDeviceList, (h,), C.c_ubyte, 0xEE, (0,))
+        if k == "tlnum":
+            return self.scalar_call(lib.TLGetNumInterfaces, (h,), C.c_uint32, 0xEEEEEEEE)
+        if k == "numurls":
+            return self.scalar_call(lib.GCGetNumPortURLs, (h,), C.c_uint32, 0xEEEEEEEE)
+        if k == "ifnum":
+            return self.scalar_call(lib.IFGetNumDevices, (h,), C.c_uint32, 0xEEEEEEEE)
         if k == "tlifid":
             return self.info_call(lib.TLGetInterfaceID, (h, int(t[2])), t[3], with_type=False)
+        if k == "ifdevid":
+            return self.info_call(lib.IFGetDeviceID, (h, int(t[2])), t[3], with_type=False)
         if k == "tlinfo":
             return self.info_call(lib.TLGetInfo, (h, int(t[2])), t[3])
         if k == "tlifinfo":
-            return self.info_call(lib.TLGetInterfaceInfo, (h, self.iface_id(t[2]), int(t[3])), t[4])
-        if k == "tlopenif":
-            dst = int(t[3])
+            return self.info_call(lib.TLGetInterfaceInfo, (h, self.P("id", self.iface_id(t[2])), int(t[3])), t[4])
+        if k == "ifdevinfo":
+            return self.info_call(lib.IFGetDeviceInfo, (h, self.P("id", self.dev_id(t[2])), int(t[3])), t[4])
+        if k == "tlopenif" or k == "ifopendev":
             out_h = C.c_void_p(None)
-            code = lib.TLOpenInterface(h, self.iface_id(t[2]), C.byref(out_h))
+            if k == "tlopenif":
+                dst = int(t[3])
+                code = lib.TLOpenInterface(h, self.P("id", self.iface_id(t[2])), self.P("out", C.byref(out_h)))
+            else:
+                code = lib.IFOpenDevice(h, self.P("id", self.dev_id(t[2])), 3, self.P("out", C.byref(out_h)))
             out = "%d" % code
             if code == 0:
                 if not out_h.value:
                     out += " HANDLE-ANOMALY"
-                self.slots[dst] = ("if", out_h.value)
+                if k == "tlopenif":
+                    self.slots[dst] = ("if", out_h.value)
+                    self.parent[out_h.value] = h.value
             elif out_h.value:
+                out += " HANDLE-ANOMALY"
+            return out
+        if k == "ifparent":
+            ph = C.c_void_p(0x77)
+            code = lib.IFGetParentTL(h, self.P("out", C.byref(ph)))
+            out = "%d" % code
+            if code == 0:
+                # not compared with the model (it has no pointer values): the oracle's business
+                out += " @parent=%s" % ("ok" if ph.value == self.parent.get(h.value) else "WRONG")
+            elif ph.value != 0x77:
                 out += " HANDLE-ANOMALY"
             return out
         if k == "ifinfo":
@@ -244,59 +289,63 @@ class Probe:
             return self.info_call(lib.GCGetPortURLInfo, (h, int(t[2]), int(t[3])), t[4])
         if k == "read":
             addr, n = int(t[2]), int(t[3])
-            # Sizes above BIG are only *claimed*: the real buffer is 64 bytes.  This is safe
-            # because no module's register map is anywhere near 1 MiB, so such a read can
-            # never succeed (and the bytes are copied only after the whole range was accepted).
+            # Sizes above BIG are only *claimed*: the real buffer is 64 bytes.  No module's
+            # register map is anywhere near 1 MiB, so such a read can never be accepted (and the
+            # bytes are copied only after the whole range was accepted).
             buf = Buf(n if n <= BIG else 64)
             size = C.c_size_t(n)
-            code = lib.GCReadPort(h, addr, buf.ptr, C.byref(size))
+            code = lib.GCReadPort(h, addr, self.P("buf", buf.ptr), self.P("size", C.byref(size)))
             out = "%d n=%d b=%s" % (code, size.value, show_bytes(buf.contents()) if n <= BIG else "claimed")
             if not buf.guards_ok():
                 out += " GUARD-BROKEN"
             return out
         if k == "write":
             addr = int(t[2])
-            if t[3].startswith("claim:"):
-                n = int(t[3][6:])
-                data = bytes(64)
-            else:
-                data = unhex(t[3])
-                n = len(data)
+            data, n = self.write_data(t[3])
             buf = Buf(len(data), data)
             size = C.c_size_t(n)
-            code = lib.GCWritePort(h, addr, buf.ptr, C.byref(size))
+            code = lib.GCWritePort(h, addr, self.P("buf", buf.ptr), self.P("size", C.byref(size)))
             out = "%d n=%d" % (code, size.value)
             if buf.contents() != data or not buf.guards_ok():
                 out += " SOURCE-MODIFIED"
             return out
-        if k == "reads":
+        if k == "reads" or k == "writes":
             cnt = int(t[2])
             ents = (StackEntry * max(cnt, 1))()
-            bufs = []
+            bufs, claimed = [], []
             for i in range(cnt):
-                addr, n = int(t[3 + 2 * i]), int(t[4 + 2 * i])
-                b = Buf(n)
+                addr = int(t[3 + 2 * i])
+                if k == "reads":
+                    n = int(t[4 + 2 * i])
+                    b = Buf(n if n <= BIG else 64)
+                else:
+                    data, n = self.write_data(t[4 + 2 * i])
+                    b = Buf(len(data), data)
                 bufs.append(b)
-                ents[i].Address, ents[i].pBuffer, ents[i].Size = addr, b.ptr.value, n
+                claimed.append(n > BIG)
+                ents[i].Address, ents[i].Size = addr, n
+                ents[i].pBuffer = None if (self.null == "entbuf" and i == cnt - 1) else b.ptr.value
             num = C.c_size_t(cnt)
-            code = lib.GCReadPortStacked(h, ents, C.byref(num))
-            out = "%d k=%d b=%s" % (code, num.value, ",".join(show_bytes(b.contents()) for b in bufs) or "-")
+            fn = lib.GCReadPortStacked if k == "reads" else lib.GCWritePortStacked
+            code = fn(h, self.P("entries", ents), self.P("count", C.byref(num)))
+            out = "%d k=%d" % (code, num.value)
+            if k == "reads":
+                out += " b=%s" % (",".join("claimed" if c else show_bytes(b.contents()) for b, c in zip(bufs, claimed)) or "-")
             if not all(b.guards_ok() for b in bufs):
                 out += " GUARD-BROKEN"
             return out
-        if k == "writes":
-            cnt = int(t[2])
-            ents = (StackEntry * max(cnt, 1))()
-            bufs = []
-            for i in range(cnt):
-                addr, data = int(t[3 + 2 * i]), unhex(t[4 + 2 * i])
-                b = Buf(len(data), data)
-                bufs.append(b)
-                ents[i].Address, ents[i].pBuffer, ents[i].Size = addr, b.ptr.value, len(data)
-            num = C.c_size_t(cnt)
-            code = lib.GCWritePortStacked(h, ents, C.byref(num))
-            return "%d k=%d" % (code, num.value)
         raise ValueError("unknown op " + op)
+
+    def write_data(self, tok):
+        """hex bytes, or `claim:N`: 64 real zero bytes with a claimed size of N (safe for the same
+        reason as claimed reads: the range check fails before any byte is looked at)"""
+        if tok.startswith("claim:"):
+            return bytes(64), int(tok[6:])
+        data = unhex(tok)
+        return data, len(data)
+
+    def dev_id(self, kind):
+        return {"bad": b"no-such-device", "empty": b""}[kind]
 
 
 def main():
